@@ -87,7 +87,7 @@ theorem reset_received_eq (g : Gateway) (s : GW) (code : Nat) (hw : WF g) (hr : 
       g'.trace = g.trace ++ ((resetReceived s code).2.flatMap (evOf none)) ∧
       g'.reset_future = g.reset_future ∧ g'.startup_reset_future = g.startup_reset_future ∧
       g'.connection_done_future = g.connection_done_future ∧ g'.transport = g.transport := by
-  obtain ⟨rf, sf, cf, cdf, tr, futs, trace⟩ := g
+  obtain ⟨rf, sf, cf, cdf, tr, futs, trace, cl, sc⟩ := g
   obtain ⟨hrv, hsv, hcv, hrs, hrc, hsc⟩ := hw
   obtain ⟨h1, h2, h3, h4⟩ := hr
   simp only at hrv hsv hcv hrs hrc hsc h1 h2 h3 h4
@@ -114,7 +114,7 @@ theorem reset_received_eq (g : Gateway) (s : GW) (code : Nat) (hw : WF g) (hr : 
         cases fj with
         | pending =>
           refine ⟨{ reset_future := none, startup_reset_future := some j, connected_future := cf,
-                    connection_done_future := cdf, transport := tr, futs := futs.set j .result, trace := trace },
+                    connection_done_future := cdf, transport := tr, futs := futs.set j .result, trace := trace, cleanups := cl, script := sc },
             ?_, ?_, ?_, ?_, rfl, rfl, rfl, rfl⟩
           · simp [Gateway.reset_received, bind, PyM.bind, PyM.get, pure, PyM.pure, gfutDone, gfutSet, hgj, GFut.done]
           · refine ⟨by simp, ?_, ?_, by simp, by simp, hsc⟩
@@ -158,7 +158,7 @@ theorem reset_received_eq (g : Gateway) (s : GW) (code : Nat) (hw : WF g) (hr : 
       cases fi with
       | pending =>
         refine ⟨{ reset_future := some i, startup_reset_future := sf, connected_future := cf,
-                  connection_done_future := cdf, transport := tr, futs := futs.set i .result, trace := trace },
+                  connection_done_future := cdf, transport := tr, futs := futs.set i .result, trace := trace, cleanups := cl, script := sc },
           ?_, ?_, ?_, ?_, rfl, rfl, rfl, rfl⟩
         · simp [Gateway.reset_received, bind, PyM.bind, PyM.get, pure, PyM.pure, gfutDone, gfutSet, hgi, GFut.done]
         · refine ⟨?_, ?_, ?_, hrs, hrc, hsc⟩
@@ -201,7 +201,7 @@ theorem reset_received_eq (g : Gateway) (s : GW) (code : Nat) (hw : WF g) (hr : 
           cases fj with
           | pending =>
             refine ⟨{ reset_future := some i, startup_reset_future := some j, connected_future := cf,
-                      connection_done_future := cdf, transport := tr, futs := futs.set j .result, trace := trace },
+                      connection_done_future := cdf, transport := tr, futs := futs.set j .result, trace := trace, cleanups := cl, script := sc },
               ?_, ?_, ?_, ?_, rfl, rfl, rfl, rfl⟩
             · simp [Gateway.reset_received, bind, PyM.bind, PyM.get, pure, PyM.pure, gfutDone, gfutSet, hgi, hgj, GFut.done]
             · refine ⟨?_, ?_, ?_, hrs, hrc, hsc⟩
@@ -231,7 +231,7 @@ theorem reset_received_eq (g : Gateway) (s : GW) (code : Nat) (hw : WF g) (hr : 
   · -- any other code: an NCP failure, no future is touched
     have hc' : code ≠ 11 := by intro h; apply hc; rw [h]; decide
     refine ⟨{ reset_future := rf, startup_reset_future := sf, connected_future := cf, connection_done_future := cdf,
-              transport := tr, futs := futs, trace := trace ++ [.appEnterFailed code] }, ?_,
+              transport := tr, futs := futs, trace := trace ++ [.appEnterFailed code], cleanups := cl, script := sc }, ?_,
       ⟨hrv, hsv, hcv, hrs, hrc, hsc⟩, ?_, ?_, rfl, rfl, rfl, rfl⟩
     · simp [Gateway.reset_received, hc', bind, PyM.bind, gemit, PyM.modify, pure, PyM.pure]
     · simp only [resetReceived, hc, if_true, ne_eq, not_false_eq_true]
@@ -306,7 +306,7 @@ theorem connection_lost_eq (g : Gateway) (s : GW) (exc : Option ExcVal) (hw : WF
     (∀ i, g.reset_future = some i →
       (connectionLost s exc.isSome).1.waitFut = absF (fget (Gateway.connection_lost exc g).2.futs i)) ∧
     (∀ k, g.connection_done_future = some k → fget (Gateway.connection_lost exc g).2.futs k = .resultExc exc) := by
-  obtain ⟨rf, sf, cf, cdf, tr, futs, trace⟩ := g
+  obtain ⟨rf, sf, cf, cdf, tr, futs, trace, cl, sc⟩ := g
   rw [WF_iff] at hw
   rw [Rel_iff] at hr
   obtain ⟨hrv, hsv, hcv, hrs, hrc, hsc⟩ := hw
@@ -433,7 +433,7 @@ theorem close_eq (g : Gateway) :
     Gateway.close g = match g.transport with
       | some _ => (.ok (), { g with trace := g.trace ++ [.transportClose] })
       | none => (.error (.raised "AttributeError"), g) := by
-  obtain ⟨rf, sf, cf, cdf, tr, futs, trace⟩ := g
+  obtain ⟨rf, sf, cf, cdf, tr, futs, trace, cl, sc⟩ := g
   cases tr <;> simp [Gateway.close, bind, PyM.bind, pure, PyM.pure, gtransport]
 
 /-- the model state that describes a gateway object -/
